@@ -135,6 +135,32 @@ def _sync(ctx):
     ctx.require({'unlink', 'missing', 'existing'} <= set(seen),
                 'unlink / fetch / existing loops of _synchronize',
                     rule='C12.1')
+    # every element of each domain is acted on: no iteration of the three
+    # loops ends before its unlink / _cache call (an entry passed over
+    # because "the instance is running" keeps a stale identity and expiry)
+    for name, loop in sorted(seen.items()):
+        def acts(node, name=name):
+            for call in C.node_calls(node):
+                if name == 'unlink' and K.callee_text(call) in (
+                        'os.unlink', 'os.remove', 'fs.rm_safe'):
+                    return True
+                if name != 'unlink' and K.is_meth(call, '_cache'):
+                    return True
+            return False
+        path = None
+        for start in [e.dst for e in loop.succ if e.kind == 'iter']:
+            if acts(start):
+                continue
+            path = K.find_path(start, [loop, graph.exit], cut_node=acts,
+                               follow_exc=False)
+            if path:
+                break
+        ctx.ob('C12.1', func, loop, path is None,
+               'every element of the %s domain is acted on (no iteration '
+               'ends before the %s)' % (name, 'unlink' if name == 'unlink'
+                                        else '_cache call'),
+               path=K.describe(path) if path else None,
+               construct='%s loop acts on every element' % name)
     # every call reaches the loops
     for name in ('unlink', 'missing'):
         loop = seen[name]
